@@ -865,6 +865,35 @@ func genPath(r *vh.Run, stream string, idx int, via string) pathCase {
 		}
 		sb.WriteString(tgt)
 		p = sb.String()
+	case x < 96:
+		// path parameters (RFC 3986 3.3: ";..." inside a segment), literal or
+		// percent-encoded, on dot segments and on ordinary segments: to a file
+		// system "..;" and "a.txt;v=3" are ordinary names
+		c.Gen = "path-params"
+		param := func() string {
+			return []string{";", ";", "%3b", "%3B", ";x=1", ";jsessionid=0A1B", ";v=3;w", "%3bk=v", ";/", ";.."}[rng.Intn(10)]
+		}
+		var sb strings.Builder
+		sb.WriteString("/" + []string{"", "", "sub/", "sub/deep/", "nope/", "c/", "dir.d/"}[rng.Intn(7)])
+		switch rng.Intn(4) {
+		case 0: // parameters on ordinary segments only
+			sb.WriteString([]string{"a.txt", "sub" + param() + "/b.txt", "index.html", "sub/deep" + param() + "/c.bin", "mapped/target.txt"}[rng.Intn(5)])
+			sb.WriteString(param())
+		default:
+			for i, k := 0, 1+rng.Intn(4); i < k; i++ {
+				sb.WriteString([]string{"..", "..", "%2e%2e", ".%2e", "."}[rng.Intn(5)])
+				if rng.Intn(4) != 0 {
+					sb.WriteString(param())
+				}
+				sb.WriteString([]string{"/", "/", "//", "%2f"}[rng.Intn(4)])
+			}
+			tgt := []string{"secret", "outside/secret", "a.txt", "sub/b.txt", "rootx", "root-evil/secret"}[rng.Intn(6)]
+			sb.WriteString(tgt)
+			if rng.Intn(4) == 0 {
+				sb.WriteString(param())
+			}
+		}
+		p = sb.String()
 	default:
 		c.Gen = "random"
 		k := 1 + rng.Intn(8)
@@ -961,15 +990,43 @@ func (e *env) lookup(clean string) target {
 // path is a key of the explicit map, the mapped file is the primary target and
 // the file inferred from the path itself an admitted alternative (both lie
 // beneath the root, which is all the statement asks for).
-func (e *env) resolve(decoded string) (primary target, alt *target) {
-	clean := path.Clean("/" + decoded)
-	if m, ok := e.explicit[clean]; ok {
-		primary = e.lookup(path.Clean("/" + m))
-		primary.kind = "explicit->" + primary.kind
-		a := e.lookup(clean)
-		return primary, &a
+func (e *env) resolve(decoded string) (primary target, alts []*target) {
+	forms := []string{path.Clean("/" + decoded)}
+	if strings.Contains(decoded, ";") {
+		// An implementation may treat ";params" as not being part of the file
+		// name. The file named by the path with the parameters dropped *first*
+		// and cleaned (anchored) afterwards lies beneath the root as well, so it
+		// is an admitted answer too.
+		segs := strings.Split(decoded, "/")
+		for i, sg := range segs {
+			if j := strings.IndexByte(sg, ';'); j >= 0 {
+				segs[i] = sg[:j]
+			}
+		}
+		forms = append(forms, path.Clean("/"+strings.Join(segs, "/")))
 	}
-	return e.lookup(clean), nil
+	first := true
+	for _, clean := range forms {
+		var cands []target
+		if m, ok := e.explicit[clean]; ok {
+			t := e.lookup(path.Clean("/" + m))
+			t.kind = "explicit->" + t.kind
+			cands = append(cands, t)
+		}
+		cands = append(cands, e.lookup(clean))
+		for i := range cands {
+			if first {
+				primary = cands[i]
+				first = false
+				continue
+			}
+			if strings.HasSuffix(cands[i].kind, "file") {
+				t := cands[i]
+				alts = append(alts, &t)
+			}
+		}
+	}
+	return primary, alts
 }
 
 func (e *env) runPath(c pathCase) {
@@ -996,7 +1053,7 @@ func (e *env) runPath(c pathCase) {
 		}
 	}
 	decoded := req.URL.Path
-	prim, alt := e.resolve(decoded)
+	prim, alts := e.resolve(decoded)
 	kind, rel := prim.kind, prim.rel
 	var o rangex.Observed
 	limit := 1 << 20
@@ -1045,7 +1102,7 @@ func (e *env) runPath(c pathCase) {
 	var firstClause, firstWhat string
 	var firstExp rangex.Expect
 	anyFile := false
-	for _, t := range []*target{&prim, alt} {
+	for _, t := range append([]*target{&prim}, alts...) {
 		if t == nil || !strings.HasSuffix(t.kind, "file") {
 			continue
 		}
